@@ -120,8 +120,7 @@ def run_check(prop, tier, seed):
             if k:
                 known_hits.append((k, code, note))
             else:
-                path = vf.write_replay_file(prop, code, evs, 'demand %s of the specification failed at %s' % (code, note))
-                violations.append((code, path, note))
+                violations.append((code, evs, note))
         if overflow and not violations:
             raise vf.HarnessError('%d further failed demands beyond the per-chunk cap were not classified' % overflow)
 
@@ -134,12 +133,15 @@ def run_check(prop, tier, seed):
             if code not in seen:
                 vf.log('NOTE: demand %s (belongs to another property) failed at %s; not part of %s' % (code, note, prop))
                 seen.add(code)
-        shown = set()
-        for (code, path, note) in violations:
-            if code in shown and len(shown) > 10:
+        percode = {}
+        for (code, evs, note) in violations:
+            percode[code] = percode.get(code, 0) + 1
+            if percode[code] > 3 or sum(1 for c in percode if percode[c] >= 1) > 12 and percode[code] > 1:
                 continue
-            shown.add(code)
+            path = vf.write_replay_file(prop, code, evs, 'demand %s of the specification failed at %s' % (code, note))
             vf.log('VIOLATION property=%s replay=%s   (demand %s at %s)' % (prop, path, code, note))
+        if violations:
+            vf.log('[%s] failed demands: %s' % (prop, ', '.join('%s x%d' % kv for kv in sorted(percode.items()))))
 
         cov['exhaustive'] = bool(plan.get('exhaustive', {}).get(tier, False))
         cov['rule'] = plan.get('rule', '')
